@@ -38,6 +38,8 @@ def one_case(args):
     out = dict(case=case, viol=None, events=0, key=None, sample=None)
     mode = rng.choice(["view_rdh", "view_rdh", "check_all", "view_data", "writer"])
     big = tier == "thorough" and rng.random() < 0.02
+    if big:
+        mode = rng.choice(["view_rdh", "writer", "check_all"])
     npk = rng.choice(COUNTS + [rng.randrange(0, 400), rng.randrange(0, 60), 1000]) if not big else rng.choice([10_000, 30_000, 100_000])
     payload = "its" if mode == "view_data" else ("none" if (big or rng.random() < 0.2) else "random")
     maxp = None if npk <= 400 else rng.choice([0, 32, 300])
@@ -50,10 +52,10 @@ def one_case(args):
     path = os.path.join(wd, "c%d.raw" % case)
     write_file(path, data)
     fargs = R.filter_args(*flt) if flt else []
-    margs = {"view_rdh": ["view", "rdh", "-d"], "check_all": ["check", "all"], "view_data": ["view", "its-readout-frames-data", "-d"], "writer": []}[mode]
+    margs = {"view_rdh": ["view", "rdh", "-d"], "check_all": ["check", "all"] + (["-m"] if big else []), "view_data": ["view", "its-readout-frames-data", "-d"], "writer": []}[mode]
     argv = ([] if use_stdin else [path]) + margs + fargs
     r = obs.run(exe, argv, stdin_path=path if use_stdin else None, workdir=wd, stats="json" if mode == "check_all" else None,
-                out_name=(mode == "writer"), tag="c%d" % case)
+                out_name=(mode == "writer"), tag="c%d" % case, timeout=900 if big else 180)
     os.unlink(path)
     exp = expected(pkts, flt)
     desc = "%d packets, %s, %s, filter %s, payload %s" % (npk, mode, "stdin" if use_stdin else "file", flt, payload)
